@@ -33,7 +33,7 @@ META = {
                   "mappings, modes and the optimisation level of the program (-O0/-O1/-O2) vary.",
     "rule": "case = (np, hosts, seed -> schedule of steps, privatization mode, context factory); non-trivial = at least 2 ranks, every rank "
             "reached its SUM line after all planned steps; distinct by (np, hosts, seed, steps, mode, factory, optimisation level of the program)",
-    "ready": False,
+    "ready": True,
 }
 
 _lock = threading.Lock()
@@ -159,7 +159,7 @@ def hostfiles(tmpd):
 
 def run(ctx):
     exe = build_all()
-    n = ctx.size(30, 1200)
+    n = ctx.size(30, 3000)
     tmpd = tempfile.mkdtemp(prefix="verif-C36-")
     try:
         hf = hostfiles(tmpd)
